@@ -27,7 +27,12 @@ Checks(r) ==
       e == Expected(c, atOK, cfgOK, createdOK)
       at == Str(r.atc)
   IN
-  IF e.res # "ok" THEN
+  IF r.res = "fault" THEN
+    \* a blob push failed (target "faultblob"): the call fails with that error and pushes no manifest
+    {<<"FaultOnlyWhenInjected", r.nfaulted > 0>>,
+     <<"NoManifestAfterFailedBlob", r.nmanifest = 0>>}
+  ELSE IF r.res = "ok" /\ r.nfaulted > 0 THEN {<<"FailedBlobPushSurfaces", FALSE>>}
+  ELSE IF e.res # "ok" THEN
     {<<"Rejected", (Validates(c) \/ e.res = "datetime") => r.res # "ok">>,
      <<"RejectedBeforeAnyPush", (e.nopush /\ r.res # "ok") => r.npush = 0>>,
      <<"RejectedWithoutManifestPush", r.res # "ok" => r.nmanifest = 0>>}
@@ -53,7 +58,7 @@ Checks(r) ==
      <<"InventedConfigPresent", e.config \in {"customempty", "emptyjson"} => r.cfgpresent>>,
      <<"LayersAsRequested", IF e.layers = "given" THEN p.layers = q.layers ELSE p.layers = <<r.emptyjsondg>> >>,
      <<"PlaceholderLayerPresent", e.layers = "placeholder" => r.layerspresent>>,
-     <<"SubjectAsRequested", p.subject = (IF e.subject THEN q.subject ELSE "")>>,
+     <<"SubjectAsRequested", p.subject = (IF e.subject THEN q.subject ELSE "") /\ (e.subject => p.subjsame)>>,
      <<"ArtifactType", p.at = wantAt /\ d.at = wantDescAt>>,
      <<"AnnotationsKept", Without(p.ann, ck) = Without(q.ann, ck)>>,
      <<"CreatedFilled", p.hascreated /\ Rfc3339OK(p.created)>>,
